@@ -353,6 +353,16 @@ func symbolLeaves() []leaf {
 			out = append(out, leaf{fmt.Sprintf("symbol-char:U+%04X@%s", r, pos), vSym(name)})
 		}
 	}
+	// every ordered pair of characters that are not letters or digits in one name: what the printer does for
+	// the second one must not depend on what it met first (a bar or a backslash after a space, a bracket ...)
+	for r1 := rune(0x20); r1 < 0x7f; r1++ {
+		for r2 := rune(0x20); r2 < 0x7f; r2++ {
+			if unicode.IsLetter(r1) || unicode.IsDigit(r1) || unicode.IsLetter(r2) || unicode.IsDigit(r2) || r1 == ':' || r2 == ':' {
+				continue
+			}
+			out = append(out, leaf{fmt.Sprintf("symbol-char2:U+%04X,U+%04X", r1, r2), vSym("a" + string(r1) + "b" + string(r2) + "c")})
+		}
+	}
 	a("symbol-char:U+0009@mid", "a\tb")
 	a("symbol-char:U+000A@mid", "a\nb")
 	a("symbol-char:U+007F@mid", "a\x7fb")
